@@ -146,7 +146,7 @@ def make(i, base_seed, tier):
         if pkt["kind"] == "ref":
             pkt["bad_crc"] = False
         return {"seed": seed, "ch": CHS[b % 3], "packets": [dict(pkt) for _ in range(8)],
-                "faults": [{"n": j, "what": "flip", "bits": [part * 8 + j]} for j in range(8)], "enum": True}
+                "faults": [{"n": j, "what": "flip", "bits": [part * 8 + j]} for j in range(8)], "enum": True, "reuse_chunks": b % 4 == 0}
     rng = stream(seed, "work")
     pkts, faults = [], []
     for j in range(rng.randint(1, 8)):
@@ -165,10 +165,18 @@ def make(i, base_seed, tier):
         elif f < 0.4:
             faults.append({"n": j, "what": "drop"})
     xr = stream(seed, "ext")
+    multi = [p_ for p_ in pkts if p_["kind"] == "ble" and len(p_["items"]) >= 2]
+    if multi and len(pkts) < 8 and xr.random() < 0.5:
+        pkts.append(dict(xr.choice(multi)))       # the same sensor data advertised once more
     return {"seed": seed, "ch": rng.choice(CHS), "packets": pkts, "faults": faults, "enum": False,
             "scanners": 2 if xr.random() < 0.3 else 1,
             # the application is late for some polls: up to three payloads (valid and invalid ones) wait in the RX FIFO
-            "hold": [j for j in range(len(pkts)) if xr.random() < 0.35]}
+            "hold": [j for j in range(len(pkts)) if xr.random() < 0.35],
+            # histories of the two objects between packets: the advertiser hops and leaves / re-enters its context (the scanner follows the
+            # channel); the scanner - with elements still unread - advertises something itself and listens again
+            "tx_hops": {str(j): xr.randint(1, 4) for j in range(len(pkts)) if xr.random() < 0.2},
+            "scanner_advertises": [j for j in range(len(pkts)) if xr.random() < 0.15],
+            "reuse_chunks": xr.random() < 0.4}
 
 
 def _expect_from_pdu(pdu):
@@ -269,10 +277,10 @@ def run(scn):
     return res
 
 
-def _judge_one(scn, w, res, rx, rr, p, a0, a1, advertised, stored, expected, outcomes, counts):
+def _judge_one(scn, w, res, rx, rr, p, a0, a1, advertised, stored, expected, outcomes, counts, ch=None):
     """poll once for the payload at the head of the scanner's RX FIFO and judge what the driver made of it"""
     sim = w.sim
-    ch = scn["ch"]
+    ch = scn["ch"] if ch is None else ch
     if not stored:
         # the scanner's radio did not store this packet (lost, or its FIFO was full): no poll is spent on it
         outcomes.append("lost")
@@ -307,6 +315,9 @@ def _judge_one(scn, w, res, rx, rr, p, a0, a1, advertised, stored, expected, out
             res.add("decode", {"kind": "name", "end_to_end": True}, "advertised name %r, element name %r" % (p["name"], el.name))
         if el.pa_level != (p["pa"] if p["show"] else None):
             res.add("decode", {"kind": "pa_level", "end_to_end": True}, "advertised pa_level %r (shown: %r), element pa_level %r" % (p["pa"], p["show"], el.pa_level))
+        if len(el.data) != len(p["items"]) + 1:        # (+ the flags structure every advertisement begins with)
+            res.add("decode", {"kind": "item_count", "end_to_end": True}, "advertised %d data item(s) %r, the element holds %d: %r"
+                    % (len(p["items"]), [it["t"] for it in p["items"]], len(el.data), [type(x).__name__ for x in el.data]))
         sim.count("end_to_end_checked")
     if got is None:
         outcomes.append("lost")
@@ -373,9 +384,39 @@ def _run(scn, w, res):
     expected = []   # per arrival: reference PDU (valid) -> element expected
     outcomes = []
     counts = {"received": 0}
+    scn_ch = [ch]
+    kept_chunks = {}
     pending = []   # packets sent but not yet polled for: (packet, trace window, advertised, stored by the scanner)
     hold = scn.get("hold") or []
     for j, p in enumerate(scn["packets"]):
+        if str(j) in (scn.get("tx_hops") or {}) and not pending and not (scn.get("faults") or []):
+            for _ in range(scn["tx_hops"][str(j)]):
+                tx.hop_channel()
+            tx.__exit__(None, None, None)
+            tx.__enter__()
+            ch = tx.channel                      # what the advertiser's object says it is tuned to
+            scn_ch[0] = ch
+            inj.radio.r[5] = ch
+            for (r_, o_) in ((rr, rx), (rr2, rx2)):
+                if o_ is not None:
+                    o_.channel = ch
+            sim.advance(300_000)
+            sim.count("advertiser_hopped_and_reentered")
+        if j in (scn.get("scanner_advertises") or []) and not pending and not (scn.get("faults") or []) and rx2 is None:   # (a second scanner would hear it)
+            # one more packet reaches the scanner after its last poll, then it turns advertiser for a moment
+            inj.radio.r[5] = scn_ch[0]
+            inj.send(b"\x71\x91\x7d\x6b", bytes([0x5A] * 32), want_ack=False)
+            q_before = len(rx.rx_queue)
+            rx.listen = False
+            rx.advertise(b"\x01", 0xFF)
+            rx.listen = True
+            if len(rx.rx_queue) != q_before:
+                res.add("fifo", {"kind": "queue_changed_by_advertise"}, "the scanner's advertise() changed its queue from %d to %d unread elements" % (q_before, len(rx.rx_queue)))
+                return
+            if rx2 is not None:
+                rx2.available()
+            rx.available()        # (the noise packet: rejected)
+            sim.count("scanner_advertised_with_unread_elements", q_before)
         a0 = len(w.air.trace)
         advertised = False
         fifo_before = len(rr.rx_fifo)
@@ -402,6 +443,13 @@ def _run(scn, w, res):
                     chunks.append(fake_ble.chunk(s.buffer))
                 else:
                     chunks.append(fake_ble.chunk(bytes.fromhex(it["d"]), it["type"]))
+            if scn.get("reuse_chunks") and len(chunks) >= 2:
+                key_ = repr(p["items"])
+                if key_ in kept_chunks:
+                    chunks = kept_chunks[key_]           # the application advertises the same list of chunk() results again
+                    sim.count("chunk_list_advertised_again")
+                else:
+                    kept_chunks[key_] = chunks
             try:
                 tx.advertise(chunks)
             except ValueError:
@@ -413,18 +461,18 @@ def _run(scn, w, res):
         else:
             inj.send(b"\x71\x91\x7d\x6b", bytes.fromhex(p["d"]), want_ack=False)
         sim.advance(200_000)
-        pending.append((p, a0, len(w.air.trace), advertised, len(rr.rx_fifo) > fifo_before))
+        pending.append((p, a0, len(w.air.trace), advertised, len(rr.rx_fifo) > fifo_before, scn_ch[0]))
         if rx2 is not None:
             rx2.available()          # the second scanner polls after every packet
         if j in hold and j != len(scn["packets"]) - 1 and len(rr.rx_fifo) < 3:
             sim.count("poll_skipped")
             continue                 # the application is late: this payload waits in the RX FIFO until after the next packet
-        for (p, a0, a1, advertised, stored) in pending:
-            if _judge_one(scn, w, res, rx, rr, p, a0, a1, advertised, stored, expected, outcomes, counts) is False:
+        for (p, a0, a1, advertised, stored, ch_) in pending:
+            if _judge_one(scn, w, res, rx, rr, p, a0, a1, advertised, stored, expected, outcomes, counts, ch_) is False:
                 return
         pending = []
-    for (p, a0, a1, advertised, stored) in pending:
-        if _judge_one(scn, w, res, rx, rr, p, a0, a1, advertised, stored, expected, outcomes, counts) is False:
+    for (p, a0, a1, advertised, stored, ch_) in pending:
+        if _judge_one(scn, w, res, rx, rr, p, a0, a1, advertised, stored, expected, outcomes, counts, ch_) is False:
             return
     received = counts["received"]
     if rx2 is not None and not res.violations:
